@@ -14,9 +14,16 @@
 //     go/types) iterates over verifMapOrder(m), whose order is served by the
 //     hook VerifPerm - the one source of nondeterminism the library consumes
 //     but does not control is thereby driven by the simulator's tape (C11).
+//  3. clock seam: every use of time.Now, time.Since and time.Until (calls and
+//     function values alike) goes to verifNow / verifSince / verifUntil, which
+//     read the hook VerifNow - the simulated clock of the check (C11: the same
+//     packet encoded at two different instants must give the same bytes).
+//     Imports of other sources of nondeterminism the instrumenter does not put
+//     behind a seam (math/rand, crypto/rand, os, runtime, unsafe, syscall) are
+//     listed in VerifUnseamed for the evidence.
 //
-// With both hooks nil the instrumented package behaves like the original
-// (map ranges keep the runtime's native order).
+// With all hooks nil the instrumented package behaves like the original
+// (map ranges keep the runtime's native order, the clock is the real one).
 package main
 
 import (
@@ -84,21 +91,56 @@ func main() {
 		}
 	}
 	// type-check (stdlib imports only; the source importer works offline)
-	info := &types.Info{Types: map[ast.Expr]types.TypeAndValue{}}
+	info := &types.Info{Types: map[ast.Expr]types.TypeAndValue{}, Uses: map[*ast.Ident]types.Object{}}
 	conf := types.Config{Importer: importer.ForCompiler(fset, "source", nil), Error: func(error) {}}
 	if _, err := conf.Check("github.com/gregoryv/mq", fset, files, info); err != nil {
 		// a package that does not type-check cannot be instrumented soundly
 		fatal("type-check: %v", err)
 	}
 	var sites []string
-	nMap := 0
+	nMap, nClock := 0, 0
+	unseamed := map[string]bool{}
 	for i, f := range files {
 		name := names[i]
 		b := srcs[name]
 		var edits []edit
 		tf := fset.File(f.Pos())
+		for _, im := range f.Imports {
+			switch p := strings.Trim(im.Path.Value, "\""); p {
+			case "math/rand", "math/rand/v2", "crypto/rand", "os", "runtime", "unsafe", "syscall", "net", "os/exec":
+				unseamed[p+" (imported by "+name+")"] = true
+			}
+		}
+		timeName := ""
 		ast.Inspect(f, func(n ast.Node) bool {
 			switch s := n.(type) {
+			case *ast.SelectorExpr:
+				x, ok := s.X.(*ast.Ident)
+				if !ok {
+					return true
+				}
+				pn, ok := info.Uses[x].(*types.PkgName)
+				if !ok || pn.Imported().Path() != "time" {
+					return true
+				}
+				var repl string
+				switch s.Sel.Name {
+				case "Now":
+					repl = "verifNow"
+				case "Since":
+					repl = "verifSince"
+				case "Until":
+					repl = "verifUntil"
+				case "Sleep", "After", "AfterFunc", "NewTimer", "NewTicker", "Tick":
+					unseamed["time."+s.Sel.Name+" (used in "+name+")"] = true
+					return true
+				default:
+					return true
+				}
+				nClock++
+				timeName = x.Name
+				start := tf.Offset(s.Pos())
+				edits = append(edits, edit{start, tf.Offset(s.End()) - start, repl})
 			case *ast.ForStmt:
 				id := len(sites)
 				sites = append(sites, fmt.Sprintf("%s:%d", name, fset.Position(s.For).Line))
@@ -142,12 +184,28 @@ func main() {
 		for _, e := range edits {
 			out = append(out[:e.off], append([]byte(e.text), out[e.off+e.del:]...)...)
 		}
+		if timeName != "" {
+			// the import may have lost its last use
+			out = append(out, []byte("\nvar _ = "+timeName+".Nanosecond\n")...)
+		}
 		if err := os.WriteFile(filepath.Join(*dst, name), out, 0o644); err != nil {
 			fatal("%v", err)
 		}
 	}
 	var sb strings.Builder
-	sb.WriteString("// Code generated by verif/cmd/instr; DO NOT EDIT.\n\npackage mq\n\nimport (\n\t\"fmt\"\n\t\"sort\"\n)\n\n")
+	sb.WriteString("// Code generated by verif/cmd/instr; DO NOT EDIT.\n\npackage mq\n\nimport (\n\t\"fmt\"\n\t\"sort\"\n\t\"time\"\n)\n\n")
+	sb.WriteString("// VerifNow, when set, is the clock the library reads (time.Now, time.Since, time.Until).\nvar VerifNow func() time.Time\n\n")
+	fmt.Fprintf(&sb, "// VerifClockUses is the number of time.Now/Since/Until uses that were put behind the clock seam.\nconst VerifClockUses = %d\n\n", nClock)
+	sb.WriteString("// VerifUnseamed lists sources of nondeterminism the library imports or uses that are NOT behind a seam.\nvar VerifUnseamed = []string{\n")
+	var us []string
+	for k := range unseamed {
+		us = append(us, k)
+	}
+	sort.Strings(us)
+	for _, k := range us {
+		fmt.Fprintf(&sb, "\t%q,\n", k)
+	}
+	sb.WriteString("}\n\n")
 	sb.WriteString("// VerifStep, when set, is called at the top of every loop iteration with the loop's site index.\nvar VerifStep func(site int)\n\n")
 	sb.WriteString("// VerifPerm, when set, chooses the iteration order of every range over a map:\n// it returns a permutation of 0..n-1 applied to the canonically sorted keys.\nvar VerifPerm func(site, n int) []int\n\n")
 	sb.WriteString("// VerifSites maps site indexes to file:line of the original source.\nvar VerifSites = []string{\n")
@@ -161,6 +219,16 @@ func main() {
 		VerifStep(site)
 	}
 }
+
+func verifNow() time.Time {
+	if VerifNow != nil {
+		return VerifNow()
+	}
+	return time.Now()
+}
+
+func verifSince(t time.Time) time.Duration { return verifNow().Sub(t) }
+func verifUntil(t time.Time) time.Duration { return t.Sub(verifNow()) }
 
 func verifMapOrder[K comparable, V any](m map[K]V, site int) []K {
 	keys := make([]K, 0, len(m))
@@ -198,7 +266,7 @@ func verifMapOrder[K comparable, V any](m map[K]V, site int) []K {
 		gs, _ := os.ReadFile(filepath.Join(*verif, "go.sum"))
 		os.WriteFile(strings.TrimSuffix(*modfile, ".mod")+".sum", gs, 0o644)
 	}
-	fmt.Printf("instr: %d files, %d loop sites, %d map ranges behind the seam -> %s\n", len(files), len(sites), nMap, *dst)
+	fmt.Printf("instr: %d files, %d loop sites, %d map ranges and %d clock uses behind seams, %d unseamed sources -> %s\n", len(files), len(sites), nMap, nClock, len(unseamed), *dst)
 }
 
 func fatal(format string, args ...interface{}) {
